@@ -305,6 +305,9 @@ func (x *executor) applyContract(m *machine, fr *frame, in ssa.Instruction, res 
 		mnow := ev.toInt(ev.eval(fc.decreases.e))
 		intT := types.Typ[types.Int]
 		x.oblige(m, "decreases", cname, mkAnd(c.cmp(token.LSS, mnow, x.recursionMeasure, intT), c.cmp(token.GEQ, x.recursionMeasure, c.I(0), intT)), nil, "recursive call decreases "+fc.decreases.text)
+	} else if recursive && fc.options["partial"] {
+		// `option partial`: the recursion is verified for partial correctness only (termination is an assumption)
+		x.note("termination of the recursion of " + key + " is NOT proved (option partial)")
 	} else if recursive {
 		x.oblige(m, "decreases", cname, tFalse, nil, "recursive call needs a decreases clause")
 	}
